@@ -53,9 +53,25 @@ impl EventGen for ReuseElement {
                 context.pop_element();
             })?;
         instance_element.expand_compound_size();
+        let target_attrs = instance_element.get_attrs();
         instance_element.eval_attributes(context).inspect_err(|_| {
             context.pop_element();
         })?;
+        // A container target (e.g. `<g>`) makes its attributes variables of its content in
+        // turn, so a value which evaluation has expanded is subject to the same limit
+        // (a group reusing itself with `v="$v$v"` would otherwise double it at every level).
+        for (key, value) in &instance_element.attrs {
+            if target_attrs.get(key) == Some(value) {
+                // as written in the document, not the result of an expansion
+                continue;
+            }
+            if value.len() > context.config.var_limit as usize {
+                let err =
+                    SvgdxError::VarLimitError(key.clone(), value.len(), context.config.var_limit);
+                context.pop_element();
+                return Err(err);
+            }
+        }
         let instance_size = instance_element.size(context).inspect_err(|_| {
             context.pop_element();
         })?;
